@@ -19,7 +19,7 @@ N = {"quick": (90, 30, 24, 8, 260), "thorough": (2200, 700, 400, 60, 3000)}
 
 ALL_FEATURES = ["extend", "wextend", "project", "select_rows", "select_columns", "drop_columns", "rename_columns", "map_columns",
                 "order_rows", "natural_join", "concat_rows"]
-ROUTES = ["rshift", "call", "arrow", "replace_leaves", "eval_map", "dict_rshift", "frame"]
+ROUTES = ["rshift", "call", "arrow", "replace_leaves", "eval_map", "dict_rshift", "frame", "eval_map_pipes", "dict_rshift_pipes", "eval_map_pipes_rev", "dict_rshift_pipes_rev"]
 
 
 # ------------------------------------------------------------------------------------------- problems (JSON-able)
@@ -81,6 +81,13 @@ def derive(p):
     r.b_tables = sorted(r.b.get_tables().keys())
     r.a_tables = sorted(r.a.get_tables().keys())
     return r
+
+
+def other_pipeline(r, k):
+    """the pipeline substituted for b's other table k in the several-entries routes: a filter over k itself"""
+    from data_algebra.data_ops import TableDescription
+    cols = [c for c, _ in r.tables[k]["spec"]]
+    return TableDescription(table_name=k, column_names=cols).select_rows("uid >= 1")
 
 
 def seq_frames(r, inner):
@@ -147,6 +154,24 @@ def route_results(r, routes=ROUTES):
             run(name, f)
         elif name == "dict_rshift":
             run(name, lambda: ({leaf: a} >> b).eval(fr))      # b.__rrshift__(dict) -> act_on(dict of pipelines) -> replace_leaves
+        elif name in ("eval_map_pipes", "dict_rshift_pipes", "eval_map_pipes_rev", "dict_rshift_pipes_rev"):
+            # a map with SEVERAL pipeline entries, substituted simultaneously: b's other tables k are replaced by pipelines that
+            # read k themselves, and a may read k too (a's k must stay the raw table)
+            others = [k for k in r.b_tables if k != leaf]
+            if not others:
+                out[name] = ("n/a", "b has a single table")
+            else:
+                def f(name=name):
+                    m = {}
+                    if not name.endswith("_rev"):
+                        m[leaf] = a                      # both dictionary orders: the substitution must be simultaneous
+                    for k in others:
+                        m[k] = other_pipeline(r, k)
+                    m[leaf] = a
+                    if name.startswith("eval_map_pipes"):
+                        return b.eval(m).eval(fr)
+                    return (m >> b).eval(fr)
+                run(name, f)
         elif name == "frame":
             if single_a and single_b:
                 run(name, lambda: fr[r.a_tables[0]] >> a >> b)
@@ -195,10 +220,20 @@ def check_problem(p, routes=ROUTES):
         if st == "raise":
             fails.append({"oracle": "compose-raises", "route": name, "what": f"{name}: composing/evaluating raised {val} although the boundary columns match"})
             continue
-        d = pipes.frames_equiv(val, seq, check_row_order=ordered)
+        want = seq
+        if name in ("eval_map_pipes", "dict_rshift_pipes", "eval_map_pipes_rev", "dict_rshift_pipes_rev"):
+            try:
+                fr2 = seq_frames(r, r.ra)
+                for k in r.b_tables:
+                    if k != r.leaf:
+                        fr2[k] = other_pipeline(r, k).eval({k: r.frames[k]})
+                want = r.b.eval(fr2)
+            except Exception:
+                continue
+        d = pipes.frames_equiv(val, want, check_row_order=ordered and want is seq)
         if d is not None:
             fails.append({"oracle": "sequential", "route": name, "what": f"{name}: composed result differs from b.eval(a.eval(x)): {d}",
-                          "composed": pipes.frame_to_json(val), "sequential": pipes.frame_to_json(seq)})
+                          "composed": pipes.frame_to_json(val), "sequential": pipes.frame_to_json(want)})
     # arrows: dom / cod describe input and output columns
     if "arrow" in routes:
         fails += arrow_oracle(r, seq)
@@ -381,6 +416,45 @@ def gen_problem(rng, *, triple=False, e_mode="same", features=None, depth_b=None
         p["c"] = pipes.to_json(c)
         p["leaf2"] = "f"
     return p
+
+
+def gen_merge_hazard(rng):
+    """a ends in an extend assigning y and z, b starts with an extend that assigns y again AND reads z: re-running the builder
+    during composition may merge the two extends; the merged step must not read the OLD z"""
+    import pipes
+    tables = [pipes.gen_table(rng, "d1", ncols=rng.randint(2, 4), types=("int", "float"), null_rate=0.0, unique_col="uid"),
+              pipes.gen_table(rng, "d2", unique_col="uid")]
+    cols = [c for c, _ in tables[0]["spec"] if c != "uid"]
+    x = rng.choice(cols)
+    z = rng.choice([c for c in cols if c != x] or ["zn"]) if rng.random() < 0.7 else "zn"
+    y = rng.choice(["yn", rng.choice(cols)]) if rng.random() < 0.5 else "yn"
+    if y == z or y == x:
+        y = "yn"
+    a = {"op": "extend", "src": {"op": "table", "name": "d1"}, "ops": {y: f"{x} + 1", z: f"{x} * 2"}}
+    if rng.random() < 0.3:
+        a = {"op": "extend", "src": {"op": "select_rows", "src": {"op": "table", "name": "d1"}, "expr": "uid >= 0"}, "ops": a["ops"]}
+    b = {"op": "extend", "src": {"op": "table", "name": "e"}, "ops": {y: str(rng.choice([9, 0.5, 3])), "wn": f"{z} + {rng.choice([1, 100])}"}}
+    if rng.random() < 0.4:
+        b = {"op": "select_columns", "src": b, "columns": ["wn", y, "uid"]}
+    return {"tables": pipes.to_json(tables), "a": a, "b": b, "leaf": "e", "e_mode": "same", "c": None}
+
+
+def gen_map_cross(rng):
+    """a reads d2 and b has d2 as a second table: a map {e: a, d2: <pipeline over d2>} must be substituted simultaneously"""
+    import pipes
+    tables = [pipes.gen_table(rng, "d1", ncols=rng.randint(2, 3), types=("int", "float"), null_rate=0.1, nrows=rng.choice([3, 4, 5, 6]), unique_col="uid"),
+              pipes.gen_table(rng, "d2", ncols=rng.randint(2, 3), types=("int", "float"), null_rate=0.1, nrows=rng.choice([3, 4, 5, 6]),
+                              colnames=["p", "q", "r"], unique_col="uid")]
+    jt = rng.choice(["INNER", "LEFT", "FULL"])
+    a = {"op": "natural_join", "src": {"op": "table", "name": "d1"}, "b": {"op": "table", "name": "d2"}, "on": ["uid"], "jointype": jt}
+    if rng.random() < 0.5:
+        a = {"op": "extend", "src": a, "ops": {"s1": "uid + 1"}}
+    b = {"op": "natural_join", "src": {"op": "table", "name": "e"},
+         "b": {"op": "rename_columns", "src": {"op": "table", "name": "d2"}, "map": {"p2": "p"}} if rng.random() < 0.5 else {"op": "table", "name": "d2"},
+         "on": ["uid"], "jointype": rng.choice(["INNER", "LEFT"])}
+    if rng.random() < 0.5:
+        b = {"op": "extend", "src": b, "ops": {"t1": "uid * 2"}}
+    return {"tables": pipes.to_json(tables), "a": a, "b": b, "leaf": "e", "e_mode": "same", "c": None}
 
 
 def problem_kinds(p):
@@ -905,6 +979,9 @@ def run(chk):
         p = gen_problem(rng)
         if p is not None:
             problems.append(p)
+    for _ in range(6 if chk.tier == "quick" else 80):          # targeted shapes (see gen_merge_hazard, gen_map_cross)
+        problems.append(gen_merge_hazard(rng))
+        problems.append(gen_map_cross(rng))
     k = tries = 0
     while k < n_triples and tries < n_triples * 6:
         tries += 1
